@@ -493,6 +493,8 @@ class Gen:
         r = self.r
         prog = []
         if self.segments:
+            if r.random() < 0.08:      # code in front of the first segment definition has nowhere to go: the build must say so
+                prog.append(insn(r.choice(["nop", "inx"])) if r.random() < 0.6 else data(1, [num(1)]))
             a0 = r.choice([0xF0, 0xF8, 0xFC, 0x1000])
             prog.append(defseg("sa", num(a0, "hex")))
             b0 = r.choice([0x4000, 0x00E0, 0xFA])
